@@ -67,12 +67,18 @@ type Race struct {
 	Kind  string // write-write | read-write
 }
 
+// Key names the racing call sites: owner type of the field + the two functions (the field names are in the
+// description; several fields written by the same pair of functions are one defect).
 func (r Race) Key() string {
 	a, b := r.A, r.B
 	if a > b {
 		a, b = b, a
 	}
-	return r.Field + "|" + a + "|" + b
+	owner := r.Field
+	if i := strings.Index(owner, "."); i > 0 {
+		owner = owner[:i]
+	}
+	return owner + "|" + a + "|" + b
 }
 
 type Exec struct {
@@ -250,6 +256,13 @@ func (s *Sched) accessHook(obj any, field string, write bool) {
 	pc := callerPC()
 	report := func(kind string, other uintptr) {
 		r := Race{Field: field, A: pcFn(pc), B: pcFn(other), Kind: kind}
+		if old, ok := s.races[r.Key()]; ok {
+			if !strings.Contains(old.Field, field) {
+				old.Field += "," + field
+				s.races[r.Key()] = old
+			}
+			return
+		}
 		s.races[r.Key()] = r
 	}
 	if a.wTid >= 0 && a.wTid != t.id && a.wClk > t.vc[a.wTid] {
